@@ -16,6 +16,29 @@ use strum::IntoEnumIterator;
 use vcommon::{json, monitor::run_shards, Args, Monitor};
 
 /// Stored (committed) market state: all pools, clocks and the other-state block.
+/// Names of the components of `market_semantic` that differ.
+pub fn market_semantic_diff(a: &Svm, b: &Svm, market: &Pubkey) -> Vec<String> {
+    let (Some(x), Some(y)) = (load::<Market>(a, market), load::<Market>(b, market)) else { return vec!["missing".into()] };
+    let mut out = vec![];
+    let f = |p: Option<gmsol_store::states::market::pool::Pool>| p.map(|p| (p.long_amount().unwrap_or(0), p.short_amount().unwrap_or(0)));
+    for k in PoolKind::iter() {
+        let (p, q) = (f(x.pool(k)), f(y.pool(k)));
+        if p != q {
+            out.push(format!("pool {k:?}: {p:?} -> {q:?}"));
+        }
+    }
+    for k in ClockKind::iter() {
+        if x.clock(k) != y.clock(k) {
+            out.push(format!("clock {k:?}: {:?} -> {:?}", x.clock(k), y.clock(k)));
+        }
+    }
+    let o = |m: &Market| (m.state().trade_count(), m.state().long_token_balance_raw(), m.state().short_token_balance_raw(), m.state().funding_factor_per_second());
+    if o(&x) != o(&y) {
+        out.push(format!("other: {:?} -> {:?}", x.state(), y.state()));
+    }
+    out
+}
+
 pub fn market_semantic(svm: &Svm, market: &Pubkey) -> Option<Vec<u8>> {
     let m = load::<Market>(svm, market)?;
     let mut out = vec![];
@@ -28,7 +51,13 @@ pub fn market_semantic(svm: &Svm, market: &Pubkey) -> Option<Vec<u8>> {
     for k in ClockKind::iter() {
         out.extend_from_slice(&m.clock(k).unwrap_or(i64::MIN).to_le_bytes());
     }
-    out.extend_from_slice(&borsh::to_vec(m.state()).unwrap_or_default());
+    // Other state without the revision counter (`rev` counts buffer commits, including commits that
+    // change nothing; it carries no balance / pool information).
+    let st = m.state();
+    out.extend_from_slice(&st.trade_count().to_le_bytes());
+    out.extend_from_slice(&st.long_token_balance_raw().to_le_bytes());
+    out.extend_from_slice(&st.short_token_balance_raw().to_le_bytes());
+    out.extend_from_slice(&st.funding_factor_per_second().to_le_bytes());
     Some(out)
 }
 
@@ -120,7 +149,7 @@ fn check_step(m: &mut Monitor, c: &Ctx, rec: &StepRec, last: &mut Vec<Option<Act
                     if market_semantic(&rec.pre, &mi.market) != market_semantic(&w.svm, &mi.market) {
                         m.violation(
                             "C23:execute:failed_execution_changed_market_state",
-                            c.wit(json!({"action": format!("{:?}", a.addr), "market": mi.name})),
+                            c.wit(json!({"action": format!("{:?}", a.addr), "kind": kind_name(a), "market": mi.name, "diff": market_semantic_diff(&rec.pre, &w.svm, &mi.market)})),
                         );
                     }
                 }
@@ -257,6 +286,7 @@ pub fn run(args: &Args) -> Option<i32> {
          distinct = (action kind, pre state, post state / party, operation)",
     );
     mon.assume("GLV actions are driven by the C45 monitor, not here");
+    mon.assume("'without touching any market' is judged on pools, clocks, recorded balances, trade count and funding factor; the buffer revision counter (bumped by no-op commits) is excluded");
     mon.assume("all ATAs exist when an action is closed (the 'ATA not initialised: skip close' path is counted, not judged)");
     let shards = args.scale(32, 256);
     let steps = args.scale(350, 900);
